@@ -44,6 +44,9 @@ Section Rel.
   Lemma MRel_oof {A} st st' : @MRel A st st' out_of_fuel out_of_fuel.
   Proof. intros s b H. exact I. Qed.
 
+  Lemma MRel_panic {A} st st' : @MRel A st st' (fun _ => Panic) (fun _ => Panic).
+  Proof. intros s b H. exact I. Qed.
+
   Lemma MRel_bind {A B} st st1 st2 (m1 : rstate -> res (A * rstate)) m2 (k1 : A -> rstate -> res (B * rstate)) k2 :
     MRel st st1 m1 m2 -> (forall a, MRel st1 st2 (k1 a) (k2 a)) -> MRel st st2 (bind m1 k1) (bind m2 k2).
   Proof.
@@ -162,7 +165,7 @@ Ltac tie_rd_side := tie_width.
 
 Ltac tie_step :=
   first
-    [ apply MRel_ret | apply MRel_fail | apply MRel_oof
+    [ apply MRel_ret | apply MRel_fail | apply MRel_oof | apply MRel_panic
     | (apply MRel_flag; assumption) | (apply MRel_ue; assumption) | (apply MRel_se; assumption)
     | apply MRel_get_err | (apply MRel_more; assumption)
     | apply MRel_nbytes | apply MRel_set_err
